@@ -485,6 +485,13 @@ func (m *passivationManager) processMessageEntry(entry *passivationEntry) {
 		m.mu.Unlock()
 		return
 	}
+	if !entry.pending {
+		// stale trigger: the participant registered again after this trigger
+		// was queued, which restarted its message count
+		entry.enqueued = false
+		m.mu.Unlock()
+		return
+	}
 	m.mu.Unlock()
 
 	passivated := m.passivate(entry)
